@@ -3,7 +3,7 @@ CONSTANTS
   CommitSeqBeforeWrite = FALSE
   FreezeBeforeMetaFlush = FALSE
 SPECIFICATION TraceSpec
-INVARIANTS SeriesIndexed AckNotAhead NoLoss NoReapply FlushedResolves NoIdReuse
+INVARIANTS SeriesIndexed AckNotAhead NoLoss NoReapply FlushedResolves NoIdReuse IndexedResolves AckedDataIndexed
 CONSTRAINT HighWater
 POSTCONDITION TraceAccepted
 CHECK_DEADLOCK FALSE
